@@ -333,8 +333,8 @@ def corpus(chk, build, workdir, stats):
 
 LITS_CFG = {
     # quick: every Integer boundary, the machine-integer boundaries next to 2^15 and 2^30
-    "quick": dict(Ks="{30, 31, 32, 53, 61, 62, 63, 64}", SKs="{15, 30}", GroupSize=3, Stride=1),
-    "thorough": dict(Ks="{29, 30, 31, 32, 33, 52, 53, 61, 62, 63, 64, 65, 95, 127, 128}", SKs="{7, 8, 15, 16, 29, 30}", GroupSize=2, Stride=1),
+    "quick": dict(Ks="{30, 31, 32, 53, 61, 62, 63, 64}", SKs="{15, 30}", GroupSize=9, Rich="FALSE", Stride=1),
+    "thorough": dict(Ks="{29, 30, 31, 32, 33, 52, 53, 61, 62, 63, 64, 65, 95, 127, 128}", SKs="{7, 8, 15, 16, 29, 30}", GroupSize=5, Rich="TRUE", Stride=1),
 }
 
 
@@ -349,8 +349,9 @@ def write_cfg(name, text):
 def literal_programs(chk, tier):
     """The programs TLC enumerates from the literal alphabet (JavaLits.tla): abstract programs like the generated ones."""
     c = LITS_CFG[tier]
-    cfg = write_cfg("JavaLits", "SPECIFICATION Spec\nCONSTANTS Ks = %s\n SKs = %s\n GroupSize = %d\n Stride = %d\n Offset = %d\n"
-                                "INVARIANT Covers\nCHECK_DEADLOCK FALSE\n" % (c["Ks"], c["SKs"], c["GroupSize"], c["Stride"], chk.seed % c["Stride"]))
+    cfg = write_cfg("JavaLits", "SPECIFICATION Spec\nCONSTANTS Ks = %s\n SKs = %s\n GroupSize = %d\n Rich = %s\n Stride = %d\n Offset = %d\n"
+                                "INVARIANT Covers\nCHECK_DEADLOCK FALSE\n" % (c["Ks"], c["SKs"], c["GroupSize"], c["Rich"], c["Stride"],
+                                                                               chk.seed % c["Stride"]))
     res = vlib.tlc("JavaLits", cfg, workers=4, timeout=600)
     chk.add_tlc("JavaLits", res)
     if res.violated:
@@ -366,17 +367,42 @@ def literal_programs(chk, tier):
 # Builtin expressions on the Java route (spec/JavaExpr.tla, JavaExprGen.tla, TraceJavaExpr.tla; gen/javaexpr.py)
 
 EXPR_CFG = {
-    "quick": dict(Stride=29, Stride3=7, PerPair=1, NCand=24, levels=[1, 3], batch=420),
-    "thorough": dict(Stride=1, Stride3=1, PerPair=4, NCand=48, levels=[1, 3, 9], batch=300),
+    # the builtins are applied directly, so the expressions meet the same run time and the same operator table at every
+    # level: the quick tier runs every case at -Q1 and, of the nested pairs, a third (rotating with the seed) also at -Q3,
+    # where the optimiser's simplifier has been over the expression first
+    "quick": dict(Stride=61, Stride3=7, Core="sign", PerPair=1, NCand=16, batch=480,
+                  levels=lambda kind, k, seed: [1, 3] if kind == "nest" and k % 3 == seed % 3 else [1]),
+    "thorough": dict(Stride=1, Stride3=1, Core="full", PerPair=4, NCand=48, batch=300, levels=lambda kind, k, seed: [1, 3, 9]),
 }
 EXPR_RESTARTS = 12        # a route that stops on a case (Java exception, fault) is restarted on the cases after it
 
 
+class Deferred:
+    """Stands in for the Check object on a worker thread: records the calls, replay() makes them on the main thread."""
+
+    def __init__(self, chk):
+        self.seed, self.calls, self.traces = chk.seed, [], 0
+
+    def add_tlc(self, *a):
+        self.calls.append(("add_tlc", a, {}))
+
+    def case(self, *a, **k):
+        self.calls.append(("case", a, k))
+
+    def violation(self, *a, **k):
+        self.calls.append(("violation", a, k))
+
+    def replay(self, chk):
+        for name, a, k in self.calls:
+            getattr(chk, name)(*a, **k)
+        chk.traces += self.traces
+
+
 def expr_generate(chk, tier):
     c = EXPR_CFG[tier]
-    cfg = write_cfg("JavaExprGen", "SPECIFICATION Spec\nCONSTANTS Stride = %d\n Stride3 = %d\n Offset = %d\n PerPair = %d\n NCand = %d\n"
+    cfg = write_cfg("JavaExprGen", "SPECIFICATION Spec\nCONSTANTS Stride = %d\n Stride3 = %d\n Core = \"%s\"\n Offset = %d\n PerPair = %d\n NCand = %d\n"
                                    " Parts = {\"flat\", \"nest\"}\nINVARIANT PrinterSound\nCHECK_DEADLOCK FALSE\n"
-                    % (c["Stride"], c["Stride3"], chk.seed % 9973, c["PerPair"], c["NCand"]))
+                    % (c["Stride"], c["Stride3"], c["Core"], chk.seed % 9973, c["PerPair"], c["NCand"]))
     res = vlib.tlc("JavaExprGen", cfg, workers=max(2, vlib.NCPU // 2), timeout=3000)
     chk.add_tlc("JavaExprGen", res)
     if res.violated:
@@ -460,7 +486,7 @@ def expr_validate(chk, events, name):
     """TraceJavaExpr on chunks of the trace, several TLC processes side by side (each -workers 1)."""
     if not events:
         return [], {"checked": 0, "outside": 0, "rejected": 0}
-    nchunk = max(1, min(vlib.NCPU // 2, (len(events) + 799) // 800))
+    nchunk = max(1, min(vlib.NCPU // 2, (len(events) + 1499) // 1500))
     per = (len(events) + nchunk - 1) // nchunk
     d = vlib.scratch("c12expr")
 
@@ -494,13 +520,18 @@ def expr_family(chk, build, tier, workdir, stats, corrupt=None):
     sig, cases, nodist = expr_generate(chk, tier)
     c = EXPR_CFG[tier]
     byid = {x["id"]: x for x in cases}
-    batches = [cases[i:i + c["batch"]] for i in range(0, len(cases), c["batch"])]
-    configs = [(route, q) for route in ROUTES for q in c["levels"]]
+    batches, blevels = [], []
+    for kind in ("nest", "flat"):
+        sel = [x for x in cases if x["kind"] == kind]
+        for k, i in enumerate(range(0, len(sel), c["batch"])):
+            batches.append(sel[i:i + c["batch"]])
+            blevels.append(c["levels"](kind, k, chk.seed))
     t1 = time.time()
     obs = {}
     with concurrent.futures.ThreadPoolExecutor(vlib.NCPU) as ex:
         # the slow configurations first
-        jobs = sorted(((bi, route, q) for bi in range(len(batches)) for route, q in configs), key=lambda j: (-j[2], j[1] != "java"))
+        jobs = sorted(((bi, route, q) for bi in range(len(batches)) for route in ROUTES for q in blevels[bi]),
+                      key=lambda j: (-j[2], j[1] != "java"))
         futs = {j: ex.submit(expr_run_config, build, batches[j[0]], j[0], sig, j[1], j[2], workdir) for j in jobs}
         for j, f in futs.items():
             obs[j] = f.result()
@@ -560,7 +591,7 @@ def expr_family(chk, build, tier, workdir, stats, corrupt=None):
                      "nested_pairs_with_distinguishing_operands": len({(x["op"], x["slot"], x["child"]) for x in nest if x["req"] and x["dist"]}),
                      "pairs_without_distinguishing_operands": len([x for x in nodist if x["req"] and x["n"] > 0]),
                      "pairs_without_member": len([x for x in nodist if x["n"] == 0]),
-                     "levels": c["levels"], "batches": len(batches), "observations": len(events), "judged": total["checked"],
+                     "levels_per_batch": blevels, "batches": len(batches), "observations": len(events), "judged": total["checked"],
                      "rejected": total["rejected"], "skipped_after_fault": skipped,
                      "gen_s": round(t1 - t0, 1), "run_s": round(t2 - t1, 1), "validate_s": round(time.time() - t2, 1)}
     return sig, cases
@@ -587,8 +618,11 @@ def run(chk, tier):
     b = vlib.vbuild()
     wd = vlib.scratch("c12")
     stats = {}
-    with concurrent.futures.ThreadPoolExecutor(1) as bg:
+    with concurrent.futures.ThreadPoolExecutor(2) as bg:
         mc = bg.submit(model_check, chk, tier)
+        # the builtin-expression family runs beside the program campaign (its TLC phases leave the processors idle)
+        dx = Deferred(chk)
+        xf = bg.submit(expr_family, dx, b, tier, vlib.scratch("c12x"), stats)
         # the hand-built probes of every admitted feature (and of the family boundary) lead the first batch
         fixed = javaslice.fixed_programs()
         lits = literal_programs(chk, tier)
@@ -622,7 +656,8 @@ def run(chk, tier):
                 stats["stopped_early_after_programs"] = done
                 break
         corpus(chk, b, wd, stats)
-        expr_family(chk, b, tier, wd, stats)
+        xf.result()
+        dx.replay(chk)
         for cfg, r in mc.result():
             chk.add_tlc(cfg, r)
             if r.violated:
